@@ -498,6 +498,8 @@ def getitem(I, base, idx, lineno=None):
     if isinstance(base, LocIndexer):
         if isinstance(idx, SV) and idx.is_bool:
             return getitem(I, base.rec, idx, lineno)
+        if isinstance(idx, tuple) and len(idx) == 2 and isinstance(idx[0], slice) and idx[0] == slice(None, None, None):
+            return getitem(I, base.rec, idx[1], lineno)
         mask, col = idx
         if isinstance(mask, SV) and mask.is_bool and isinstance(col, str):
             return getitem(I, getitem(I, base.rec, col, lineno), mask, lineno)
@@ -599,6 +601,12 @@ def fancy(I, base, idx, lineno):
     return SArr(na, idx.n, base.elem, base.kind)
 
 
+# pandas accessors of pyLife that the verified code itself uses on intermediate results
+ACCESSORS = {
+    'load_collective': {'frame': ('pylife.stress.collective.load_collective', 'LoadCollective')},
+}
+
+
 class TableIloc:
     """table.iloc[i] -> row record (IndexError path when out of range; negative positions wrap like pandas)"""
     def __init__(self, rec):
@@ -660,6 +668,13 @@ def setitem(I, frame, target_expr, base, idx, val, lineno=None):
             return
         raise Unsupported(f"item assignment on generic element with index {idx!r}")
     if isinstance(base, Rec):
+        if isinstance(idx, (PList, list)) and isinstance(val, Rec):
+            for c in (idx.items if isinstance(idx, PList) else idx):
+                if c not in val.fields:
+                    raise PyRaise('KeyError', c, lineno)
+                base.fields[c] = val.fields[c]
+                base.writes.append(c)
+            return
         if isinstance(idx, str):
             if base.kind == 'frame' and isinstance(val, (int, float)) and not isinstance(val, bool):
                 val = SV(RV(float(val)), kind='series', index=base.index)
@@ -887,6 +902,26 @@ def rec_attr(I, r, attr, lineno):
         return Opaque(('keys', tuple(r.fields)))
     if attr == 'to_pandas':
         return bound('to_pandas', lambda: r)
+    if attr in ('max', 'min') and r.kind == 'frame':
+        def rowwise(axis=None, **k):
+            if axis != 1:
+                raise Unsupported(f"frame.{attr} over rows")
+            vals = list(r.fields.values())
+            out = vals[0]
+            for v in vals[1:]:
+                out = minmax2(I, out, v, attr == 'max')
+            return SV(out.t, out.pinf, out.ninf, None, 'series', r.index)
+        return bound(attr, rowwise)
+    if attr in ('multiply', 'add') and r.kind == 'frame':
+        def colwise(other, axis=None, **k):
+            opn = ast.Mult if attr == 'multiply' else ast.Add
+            return Rec({c: binop(I, opn, v, other) for c, v in r.fields.items()}, 'frame', index=r.index)
+        return bound(attr, colwise)
+    if attr in ACCESSORS and r.kind in ACCESSORS[attr]:
+        modname, clsname = ACCESSORS[attr][r.kind]
+        from . import extract as _ex
+        m = _ex.load_module(modname)
+        return I.instantiate(I.get_class(m, m.find(clsname)), [r], {})
     if attr == 'loc':
         return LocIndexer(r)
     if attr == 'columns':
@@ -1742,6 +1777,9 @@ def pd_series(I, data=None, index=None, name=None, dtype=None, **kw):
         return SV(t, data.pinf, data.ninf, data.guard, 'series', tok)
     if isinstance(data, dict):
         return Rec(data, 'series')
+    if isinstance(data, (int, float)) and not isinstance(data, bool) and index is not None:
+        # pd.Series(scalar, index=idx): the scalar in every row
+        return SV(RV(float(data)), kind='series', index=_index_token(index))
     raise Unsupported(f"pd.Series of {type(data).__name__}")
 
 
